@@ -67,14 +67,19 @@ end Model
 
 /-! ## 2. energy (ordered field) -/
 
-variable {R : Type} [Field R] [LinearOrder R] [IsStrictOrderedRing R] [DecidableEq R]
+section Fld
+variable {F : Type} [Field F] [DecidableEq F]
 
-theorem csrRow_eq_rowDot (A : Csr R) (i : Nat) (u : Nat → R) : csrRow A i u = rowDot (rowOf A i) u := by
+theorem csrRow_eq_rowDot (A : Csr F) (i : Nat) (u : Nat → F) : csrRow A i u = rowDot (rowOf A i) u := by
   unfold ExtC09.csrRow rowDot rowOf
   rw [List.map_map]
   rfl
 
-theorem vec_eq_fn (x : Array R) : vec x = fn x := rfl
+theorem vec_eq_fn (x : Array F) : vec x = fn x := rfl
+
+end Fld
+
+variable {R : Type} [Field R] [LinearOrder R] [IsStrictOrderedRing R] [DecidableEq R]
 
 /-- **one subdomain step of the `overlapping_schwarz_csr` kernel does not increase the energy of the error** when the
 stored block is the inverse of `A` restricted to the subdomain -/
